@@ -552,6 +552,11 @@ func (d *BalDriver) Step(x *Exec, n *Node, i int) StepResult {
 	diff := DiffDumps(beforeD, afterD)
 	changed := len(diff) > 0
 	refused := !obs.Halt || outcome == "HALT:false"
+	// an Alphabet-only method that the model expects to be refused may also halt without doing anything: the
+	// statements only demand that nothing changes (the public transfer reports its refusal as `false`)
+	if !expHalt && obs.Halt && !changed && len(obs.Notifs) == 0 && o.kind != "transfer" && o.kind != "probeXfer" {
+		refused, outcome, expHalt = true, "HALT:noop", true
+	}
 	// clause: a failed or refused invocation changes nothing and announces nothing
 	if refused && (changed || len(obs.Notifs) > 0) {
 		return viol("refused-but-changed", fmt.Sprintf("a failed/false invocation changed state or emitted events: %v %v", diff, obs.Notifs))
